@@ -202,3 +202,24 @@ V("c18-interp-arm-removed", "C18", "analysis/zhit/interpolation.py", "    elif i
 V("c18-increment-guard", "C18", "progress.py", "        self._i += step\n        if not (self._i <= self._total):\n            raise ValueError(f\"Expected {self._i=} <= {self._total=}\")\n\n        self._update(force=force)", "        self._i += step\n        self._update(force=force)", "fire", "Progress.increment:guard")
 V("c18-kk-steps", "C18", "analysis/kramers_kronig/exploratory.py", "    num_steps: int = 2  # Calculating weight and preparing arguments", "    num_steps: int = 1  # Calculating weight and preparing arguments", "fire", "evaluate_log_F_ext:budget")
 V("c18-benign-more-slack", "C18", FIT, "    with Progress(\"Preparing to fit\", total=num_steps + 1) as prog:", "    with Progress(\"Preparing to fit\", total=num_steps + 2) as prog:", "silent")
+
+# ---------------------------------------------------------------- C07
+KLS = "analysis/kramers_kronig/least_squares.py"
+KMI = "analysis/kramers_kronig/matrix_inversion.py"
+V("c07-cap-sign", "C07", KLS, "    if test == \"complex\":\n        A[m // 2:, i] = w if admittance else (-1 / w)", "    if test == \"complex\":\n        A[m // 2:, i] = w if admittance else (1 / w)", "fire", "least_squares:complex:Z")
+V("c07-imag-block", "C07", KLS, "        A[0:m // 2, i] = c.real\n        A[m // 2:, i] = c.imag", "        A[0:m // 2, i] = c.real\n        A[m // 2:, i] = c.real", "fire", "least_squares:complex")
+V("c07-mi-L-sign", "C07", KMI, "            L = 1 / L\n\n        L *= -1\n", "            L = 1 / L\n\n", "fire", "matrix_inversion")
+V("c07-mi-kth-adm", "C07", KMI, "            A_im[:, i + 1] = w / (1 + (w * tau) ** 2)", "            A_im[:, i + 1] = -w / (1 + (w * tau) ** 2)", "fire", "matrix_inversion")
+V("c07-ls-mapping-C", "C07", KLS, "                element.set_values(C=C if admittance else 1 / C)", "                element.set_values(C=C)", "fire", "least_squares")
+V("c07-pop-order", "C07", KMI, "    # Series or parallel L\n    L: float64\n    L, variables = variables[-1], variables[:-1]", "    # Series or parallel L\n    L: float64\n    L, variables = variables[-2], variables[:-1]", "fire", "_update_circuit:positions")
+V("c07-ky-element", "C07", "circuit/kramers_kronig.py", 'equation="1/((C*2*pi*f)/(2*pi*f*tau-I))"', 'equation="1/((C*2*pi*f)/(2*pi*f*tau+I))"', "fire", ":Y:")
+V("c07-benign-power", "C07", KLS, "    if test == \"complex\":\n        A[m // 2:, i] = (1 / w) if admittance else w", "    if test == \"complex\":\n        A[m // 2:, i] = (w ** -1) if admittance else w", "silent")
+
+# ---------------------------------------------------------------- C09
+KUT = "analysis/kramers_kronig/utility.py"
+V("c09-tau-max", "C09", KUT, "    tau_max: float64 = F_ext / min(w)", "    tau_max: float64 = F_ext * min(w)", "fire", "_generate_time_constants:scaling")
+V("c09-weight-power", "C09", "analysis/utility.py", "    return (Z_exp.real**2 + Z_exp.imag**2) ** -1  # type: ignore", "    return (Z_exp.real**2 + Z_exp.imag**2) ** -2  # type: ignore", "fire", "_boukamp_weight:degree")
+V("c09-inhomogeneous-column", "C09", KLS, "        return 1 / (1 + 1j * w * tau)", "        return 1 / (1 + 1j * w * tau**2)", "fire", "column-k")
+V("c09-literal", "C09", KMI, "        if C == 0.0:\n            C = 1e-50", "        if C == 0.0:\n            C = 1e-50\n        else:\n            C = 2.5", "fire", "R9.5")
+V("c09-tau-from-first-point", "C09", KUT, "    tau_min: float64 = 1 / (max(w) * F_ext)", "    tau_min: float64 = 1 / (w[0] * F_ext)", "fire", "_generate_time_constants")
+V("c09-benign-power-form", "C09", KUT, "    tau_min: float64 = 1 / (max(w) * F_ext)", "    tau_min: float64 = (max(w) * F_ext) ** -1", "silent")
